@@ -49,6 +49,7 @@ func vReach(id string)
 func vUnroll(n int)
 func vNoMerge()
 func vSymbolic() bool
+func vIsConcrete(s string) bool
 func vRunSpawned() int
 func vSpawnCount() int
 func vSendCount() int
@@ -153,6 +154,7 @@ func vReach(id string)  {}
 func vUnroll(n int)     {}
 func vNoMerge()         {}
 func vSymbolic() bool   { return false }
+func vIsConcrete(s string) bool { return true }
 func vRunSpawned() int  { return 0 }
 func vSpawnCount() int  { return 0 }
 func vSendCount() int   { return 0 }
